@@ -254,5 +254,31 @@ func verifHarness_C18_malformed() {
 		}
 	})
 	verifAssert(k == "", "binding arbitrary bytes does not panic")
+	if verifSymbolic() {
+		// malformed input is refused by the decoder only if the decoder is left strict
+		strict := true
+		for i := 0; i < verifEventCount(); i++ {
+			if verifEventKind(i) == "xml.Decode" {
+				strict = verifAnd(strict, verifEventStr(i, 1) == "strict")
+			}
+		}
+		verifAssert(strict, "the XML decoder is used as encoding/xml sets it up (strict, no entity table, no auto-close list)")
+	} else {
+		// a fixed battery of malformed documents: every one is an error, none binds
+		for _, doc := range []string{
+			"<verifUser><name>x</verifUser>", "<verifUser><name>x</name>", "<verifUser><name>&bogus;</name></verifUser>",
+			"<verifUser a=b><name>x</name></verifUser>", "<verifUser><name>x</nam></verifUser>", "<verifUser a><name>x</name></verifUser>",
+		} {
+			var u verifUser
+			verifAssert(XML.BindBytes([]byte(doc), &u) != nil, "malformed XML yields an error")
+			rq := &http.Request{Method: "POST", URL: &url.URL{Path: "/"}, Header: http.Header{"Content-Type": {"application/xml"}}}
+			rq.Body = &verifBody{strings.NewReader(doc)}
+			verifAssert(Auto(rq, &u) != nil, "malformed XML yields an error through automatic binding")
+		}
+		for _, doc := range []string{`{"name":"x"`, `{"name":}`, `[`, `{"name":"x",}`, `{"name":x}`} {
+			var u verifUser
+			verifAssert(JSON.BindBytes([]byte(doc), &u) != nil, "malformed JSON yields an error")
+		}
+	}
 	verifCover("C18 arbitrary body")
 }
